@@ -511,6 +511,15 @@ def run(ctx):
     if not c06_lines.run_family(ctx, sys.modules[__name__], forms):
         return
 
+    # ---- the edge of the validated domain (Props/C06.lean, `NeutralText`): a non-ASCII LETTER directly next to the occurrence
+    #      is not a delimiter; the byte-level model and the code (char::is_alphanumeric) part there.  Recorded, not judged:
+    #      if they ever AGREE on these lines the note in the Lean file and in DESIGN.md is out of date.
+    edge = []
+    for ch in ("\u00e9", "\u00df", "\u65e5"):
+        req = mkreq(forms, ch + "FOO_BAR\n", "foo_bar", "baz_qux", "default")
+        edge.append({"line": ch + "FOO_BAR", "impl": out_line(common.run_impl([req])[0])[1], "model": out_line(common.run_model([req])[0])[1]})
+    ctx.cov["outside_validated_domain"] = edge
+
     # ---- option sets: documented semantics vs build_styles_list (real) vs model ------------------------------------
     sreqs = ["stylelist " + o for o in opt_sets]
     for _ in range(200):
